@@ -95,7 +95,32 @@ fn parse_mode(s: &str) -> Mode {
     }
 }
 
+static TABLE_CACHE: std::sync::OnceLock<Vec<(&'static str, Vec<(Mode, u8)>)>> = std::sync::OnceLock::new();
+
+pub fn table_ref() -> &'static Vec<(&'static str, Vec<(Mode, u8)>)> {
+    TABLE_CACHE.get_or_init(parse_table)
+}
+
 pub fn table() -> Vec<(&'static str, Vec<(Mode, u8)>)> {
+    table_ref().clone()
+}
+
+static DECODE_CACHE: std::sync::OnceLock<Vec<Option<(&'static str, Mode)>>> = std::sync::OnceLock::new();
+
+/// opcode byte -> (mnemonic, mode)
+pub fn decode(op: u8) -> Option<(&'static str, Mode)> {
+    DECODE_CACHE.get_or_init(|| {
+        let mut v = vec![None; 256];
+        for (mn, modes) in table_ref() {
+            for (m, o) in modes {
+                v[*o as usize] = Some((*mn, *m));
+            }
+        }
+        v
+    })[op as usize]
+}
+
+fn parse_table() -> Vec<(&'static str, Vec<(Mode, u8)>)> {
     let mut out = vec![];
     for line in TABLE.lines() {
         let line = line.trim();
@@ -119,8 +144,8 @@ pub fn mnemonics() -> Vec<&'static str> {
 
 pub fn opcode(mn: &str, mode: Mode) -> Option<u8> {
     let mn = mn.to_ascii_lowercase();
-    for (m, v) in table() {
-        if m == mn {
+    for (m, v) in table_ref() {
+        if *m == mn {
             return v.iter().find(|(md, _)| *md == mode).map(|(_, o)| *o);
         }
     }
